@@ -1,117 +1,479 @@
 """C17 - RunStart metadata merges sources with documented precedence.
 
 Carrier: bluesky/run_engine.py: RunEngine._open_run (+ default_scan_id_source, _default_md_validator,
-_default_md_normalizer), RunBundler.open_run.
-Clauses: for every key, the RunStart carries the value of the highest-precedence source that has it
-(RE(...) keyword metadata > open_run metadata > plan identity {plan_type, plan_name} > persistent RE.md), as transformed
-by the normalizer (which receives a deep copy); with the default source scan_id' = scan_id + 1 (1 when absent), kept
-in RE.md; a rejecting validator means: nothing emitted, no run registered - and, since the run was not opened, no
-scan_id consumed ("increases by exactly one per opened run").
+_default_md_normalizer), RunBundler.open_run; RunEngine.__call__ / _clear_call_cache for the RE(...) keyword layer.
+Clauses (from the statement):
+  merge      every RunStart is  normalizer(persistent RE.md [holding the new scan_id] < plan identity {plan_type, plan_name}
+             < open_run metadata < RE(...) keyword metadata)  - for an ordinary key, and for the keys the engine itself
+             writes (plan_name, plan_type, scan_id), held by any subset of the three user sources; for the first and for a
+             later run of the same call; whatever the validator / normalizer do with the mapping they are handed;
+  scan_id    with the default source RE.md['scan_id'] goes up by exactly one per opened run (1 when absent) - whatever the
+             other sources say about 'scan_id' - and a run that is not opened (validator or normalizer refuses, run key
+             already open) consumes none;
+  frame      _open_run leaves the sources as they were (RE.md: only scan_id changes) - otherwise a later RunStart would not be
+             the documented merge;
+  shown      the validator and the normalizer are shown exactly that merge; the normalizer gets a private (deep) copy;
+  refused    a rejecting validator (or a refusing normalizer): nothing emitted, no run registered;
+  per-call   the RE(...) keyword layer of a call is exactly that call's keyword arguments (nothing left from the call before).
 """
+import ast as _ast
+import os
+
 from .lib import *
 from .re_lib import *
+from .run_lib import TRUSTED_T2
+from pyvc.bisim import reference_module
+from pyvc.stdstubs import deepcopy_value
 
 PROP = "C17"
-TRUSTED = EM_ASSUMPTIONS + ["collections.ChainMap modelled as the precedence-ordered merge; copy.deepcopy gives a disjoint isomorphic copy",
-                            "metadata keys are strings (concrete representatives: one key present in any subset of the sources, one key private to each source)",
-                            "the tracer is a recording fake"]
-NOT_DECIDED = "custom scan_id_source callables (an awaitable source is awaited); PersistentDict storage of RE.md (C43)"
+TRUSTED = EM_ASSUMPTIONS + [
+    "collections.ChainMap behaves as the executable model `live_chainmap` below (CPython 3.12 semantics: a live view over the very maps "
+    "it was given; look-ups take the first map that has the key; writes, deletions, pop, setdefault, update, clear go to maps[0]; "
+    "dict(cm) / iteration give the merged content; copy.deepcopy gives a ChainMap over disjoint isomorphic copies of the maps)",
+    "copy.deepcopy gives a disjoint isomorphic copy",
+    "metadata keys are strings (concrete representatives: one key private to each source; one key under test - an ordinary one, "
+    "'plan_name', 'plan_type' or 'scan_id' - present in any subset of the three user sources); values symbolic",
+    "validators / normalizers: the representatives in contracts/refs/c17.py (accepting, rejecting, writing into the mapping they "
+    "are handed; returning a new dict or the transformed argument, raising)",
+    "the tracer is a recording fake",
+    "call.metadata (T2, one concrete two-run plan, two calls, no interruptions): the T2 base below; the RunBundler stand-in records the "
+    "metadata it is constructed with (= the RunStart content by the contract proved in _open_run.metadata through the real RunBundler.open_run)",
+] + TRUSTED_T2
+NOT_DECIDED = ("custom scan_id_source callables (an awaitable source is awaited); PersistentDict storage of RE.md (C43); metadata "
+               "keys 'uid' / 'time' (event_model refuses them); validators that write into *nested* values of the shallow copy they get")
+
+REF_FILE = "contracts/refs/c17.py"
+REF = open(os.path.join(os.path.dirname(os.path.dirname(os.path.abspath(__file__))), REF_FILE)).read()
+_spec_ns = {}
+exec(compile(_ast.Module([n for n in _ast.parse(REF).body if isinstance(n, _ast.FunctionDef) and n.name == "merged"], []), REF_FILE, "exec"), _spec_ns)
+merged = _spec_ns["merged"]          # the statement's merge, the same function the native replay uses
+
+O_MERGE = f"{RE}._open_run#ensures[every RunStart is normalizer(RE.md < plan identity < open_run md < RE(...) md)]"
+O_SCAN = f"{RE}._open_run#ensures[RE.md scan_id' = scan_id + 1 (1 if absent) per opened run, whatever the other sources say]"
+O_REG = f"{RE}._open_run#ensures[run registered once, uid returned and remembered]"
+O_FRAME = f"{RE}._open_run#ensures[the metadata sources are left as they were (RE.md: only scan_id changes)]"
+O_SHOWN = f"{RE}._open_run#ensures[validator and normalizer are shown the merged metadata; the normalizer gets a private copy]"
+O_REFUSED = f"{RE}._open_run#ensures[refused run: nothing emitted, no run registered, no scan_id consumed]"
+O_CALL = f"{RE}.__call__#ensures[the RE(...) keyword layer is exactly this call's keyword metadata]"
 
 
-def setup(I, which):
-    w = I.w
-    env = Env(I)
-    install_tracer(I, [])
-    srcs = {}
-    vals = {}
-    for name in ("call", "msg", "md"):
-        d = {f"only_{name}": w.real(f"v_only_{name}")}
-        if which[name]:
-            vals[name] = w.real(f"v_shared_{name}")
-            d["shared"] = vals[name]
-        srcs[name] = d
-    if which["plan_name_in_md"]:
-        srcs["md"]["plan_name"] = "from_md"
-    if which["plan_name_in_msg"]:
-        srcs["msg"]["plan_name"] = "from_msg"
-    sid = w.choose(["absent", "present"], "scan_id in RE.md")
-    s0 = w.int("scan_id")
-    if sid == "present":
-        srcs["md"]["scan_id"] = s0
-    re_ = make_re(I, env, md=srcs["md"], _metadata_per_call=srcs["call"],
-                  scan_id_source=I.get_function(f"{MR}:default_scan_id_source"), md_validator=I.get_function(f"{MR}:_default_md_validator"),
-                  md_normalizer=I.get_function(f"{MR}:_default_md_normalizer"))
-    return env, re_, srcs, vals, (s0 if sid == "present" else None)
+# ------------------------------------------------------------------------------------------------ collections.ChainMap
+def live_chainmap(I, a, k):
+    """collections.ChainMap(*maps) as a *live view* (assumed contract, see TRUSTED)"""
+    if k:
+        raise EngineError("ChainMap(**kwargs)")
+    maps = list(a) if a else [{}]
+    for m in maps:
+        if not isinstance(m, dict):
+            raise EngineError(f"ChainMap over a non-dict mapping {m!r} (not modelled)")
+    return _chainmap_over(maps)
 
 
-@task("_open_run.metadata", PROP, functions=[f"{RE}._open_run", f"{MR}:default_scan_id_source", f"{MR}:_default_md_normalizer", f"{MB}:RunBundler.open_run"],
-      expect=[f"{RE}._open_run#ensures[every key comes from the highest-precedence source that has it]",
-              f"{RE}._open_run#ensures[scan_id' = scan_id + 1 (1 if absent), stored in RE.md and in the RunStart]"])
+def _chainmap_over(maps):
+    def find(I, key):
+        I.check_hashable(key)
+        for m in maps:
+            if key in m:
+                return m
+        return None
+
+    def as_dict(I, o=None):
+        out = {}
+        for m in reversed(maps):
+            for kk in m:
+                out.setdefault(kk, None)
+        for kk in out:
+            out[kk] = find(I, kk)[kk]
+        return out
+
+    def getitem(I, o, key):
+        m = find(I, key)
+        if m is None:
+            I.raise_("KeyError", key)
+        return m[key]
+
+    def setitem(I, o, key, v):
+        I.check_hashable(key)
+        I.note_write(maps[0], key)
+        maps[0][key] = v
+
+    def delitem(I, o, key):
+        I.check_hashable(key)
+        if key not in maps[0]:
+            I.raise_("KeyError", f"Key not found in the first mapping: {key!r}")
+        I.note_write(maps[0], key)
+        del maps[0][key]
+
+    def get(I, o, a, k):
+        m = find(I, a[0])
+        return (a[1] if len(a) > 1 else k.get("default")) if m is None else m[a[0]]
+
+    def setdefault(I, o, a, k):
+        m = find(I, a[0])
+        if m is not None:
+            return m[a[0]]
+        d = a[1] if len(a) > 1 else k.get("default")
+        setitem(I, o, a[0], d)
+        return d
+
+    def pop(I, o, a, k):
+        I.check_hashable(a[0])
+        if a[0] in maps[0]:
+            I.note_write(maps[0], a[0])
+            return maps[0].pop(a[0])
+        if len(a) > 1:
+            return a[1]
+        I.raise_("KeyError", f"Key not found in the first mapping: {a[0]!r}")
+
+    def popitem(I, o, a, k):
+        if not maps[0]:
+            I.raise_("KeyError", "No keys found in the first mapping.")
+        return maps[0].popitem()
+
+    def update(I, o, a, k):
+        if a:
+            src = a[0]
+            if isinstance(src, Opaque) and "as_dict" in src.spec:
+                src = src.spec["as_dict"](I, src)
+            items = list(src.items()) if isinstance(src, dict) else [tuple(I.run(I.iterate(kv))) for kv in I.run(I.iterate(src))]
+            for kk, vv in items:
+                setitem(I, o, kk, vv)
+        for kk, vv in k.items():
+            setitem(I, o, kk, vv)
+
+    def new_child(I, o, a, k):
+        m = a[0] if a else k.pop("m", None)
+        if m is None:
+            m = dict(k)
+        return _chainmap_over([m] + maps)
+
+    methods = {
+        "get": get, "setdefault": setdefault, "pop": pop, "popitem": popitem, "update": update, "new_child": new_child,
+        "clear": lambda I, o, a, k: maps[0].clear(),
+        "keys": lambda I, o, a, k: list(as_dict(I)), "values": lambda I, o, a, k: list(as_dict(I).values()),
+        "items": lambda I, o, a, k: list(as_dict(I).items()),
+        "copy": lambda I, o, a, k: _chainmap_over([dict(maps[0])] + maps[1:]),
+        "__copy__": lambda I, o, a, k: _chainmap_over([dict(maps[0])] + maps[1:]),
+        "__getitem__": lambda I, o, a, k: getitem(I, o, a[0]), "__setitem__": lambda I, o, a, k: setitem(I, o, a[0], a[1]),
+        "__delitem__": lambda I, o, a, k: delitem(I, o, a[0]), "__contains__": lambda I, o, a, k: find(I, a[0]) is not None,
+        "__len__": lambda I, o, a, k: len(as_dict(I)), "__iter__": lambda I, o, a, k: iter(list(as_dict(I))),
+    }
+
+    def deepcopy(I, o):
+        memo = {}
+        return _chainmap_over([deepcopy_value(I, m, memo) for m in maps])
+    # truth: bool(ChainMap) is any(maps); the maps of _open_run always hold the plan identity (static True is exact there)
+    cm = Opaque("ChainMap", {"token": "ChainMap", "truth": True, "isinstance_default": False,
+                             "isinstance": {"ChainMap": True, "Mapping": True, "MutableMapping": True, "object": True},
+                             "getitem": getitem, "setitem": setitem, "delitem": delitem,
+                             "contains": lambda I, o, key: find(I, key) is not None, "iter": lambda I, o: list(as_dict(I)),
+                             "len": lambda I, o: len(as_dict(I)), "as_dict": as_dict, "deepcopy": deepcopy,
+                             "copy": lambda I, o: _chainmap_over([dict(maps[0])] + maps[1:]), "methods": methods,
+                             "dyn_attrs": {"parents": lambda I, o: _chainmap_over(maps[1:] or [{}])}})
+    cm.attrs["maps"] = maps
+    return cm
+
+
+def plain(I, md):
+    """a mapping as the plain dict that `**md` / dict(md) gives"""
+    if isinstance(md, Opaque) and "as_dict" in md.spec:
+        return md.spec["as_dict"](I, md)
+    return md
+
+
+# ------------------------------------------------------------------------------------------------ harness
+SOURCES = ("call", "msg", "md")
+WHERE = {"call": "RE(...) md", "msg": "open_run md", "md": "RE.md"}
+KEYS = ("shared", "plan_name", "plan_type", "scan_id")
+
+
+def value(w, key, src, tag=""):
+    nm = f"v_{key}_{src}{tag}"
+    if key == "scan_id":
+        return w.int("scan_id" if src == "md" else nm)
+    if key in ("plan_name", "plan_type"):
+        return w.str(nm)
+    return w.real(nm)
+
+
+class H:
+    """_open_run from a RunEngine state given field by field: the three user sources each hold a private key; `key` is
+    held by the sources listed in `holders`; RE.md holds a scan_id iff `sid_present`"""
+
+    def __init__(self, I, key="shared", holders=(), sid_present=True, nested=False, validator="default", normalizer="default"):
+        self.I, self.w = I, I.w
+        w = I.w
+        self.env = env = Env(I)
+        install_tracer(I, [])
+        w.stubs["collections.ChainMap"] = live_chainmap
+        # event_model.compose_run takes any mapping: RunStart(uid=..., time=..., **metadata)
+        w.stubs[(MB, "compose_run")] = native(lambda I_, a, k: env.compose_run(I_, a, {**k, "metadata": plain(I_, k.get("metadata"))}))
+        self.users = reference_module(I.P, "verif_ref_c17", REF)
+        self.srcs = {n: {f"only_{n}": w.real(f"v_only_{n}")} for n in SOURCES}
+        for n in holders:
+            self.srcs[n][key] = value(w, key, n)
+        if sid_present and "scan_id" not in self.srcs["md"]:
+            self.srcs["md"]["scan_id"] = w.int("scan_id")
+        if nested:
+            self.srcs["md"]["sample"] = {"name": w.str("v_sample_name")}
+        self.s0 = self.srcs["md"].get("scan_id")
+        self.vseen, self.nseen = [], []
+        self.modes = {"validator": validator, "normalizer": normalizer}
+        fv = I.get_function(f"{MR}:_default_md_validator") if validator == "default" else \
+            I.call_value(I.get_function("verif_ref_c17:make_validator"), self.vseen, validator)
+        fn = I.get_function(f"{MR}:_default_md_normalizer") if normalizer == "default" else \
+            I.call_value(I.get_function("verif_ref_c17:make_normalizer"), self.nseen, normalizer)
+        self.re = make_re(I, env, md=self.srcs["md"], _metadata_per_call=self.srcs["call"],
+                          scan_id_source=I.get_function(f"{MR}:default_scan_id_source"), md_validator=fv, md_normalizer=fn)
+        self.runs = []           # the replay script: one entry per _open_run issued
+        self.case = {"md": sorted(self.srcs["md"]), "call": sorted(self.srcs["call"]), "runs": self.runs, "nested": nested,
+                     "validator": validator, "normalizer": normalizer, "pre_open": []}
+
+    def info(self, clause):
+        return {"replay": "metadata.scenario", "clause": clause, "case": self.case, "ref_file": REF_FILE}
+
+    def snapshot(self):
+        return {n: deepcopy_value(self.I, self.srcs[n]) for n in SOURCES}
+
+    def sid(self, opened):
+        """the persistent scan_id after `opened` runs were opened (None: absent)"""
+        if opened == 0:
+            return self.s0
+        return opened if self.s0 is None else self.s0 + opened
+
+    def open_run(self, msg_md=None, run=None):
+        if msg_md is not None:
+            self.srcs["msg"] = msg_md
+        self.runs.append({"run": run, "md": sorted(self.srcs["msg"])})
+        n0 = len(self.env.emitted)
+        r = call_async(self.I, self.I.getattr(self.re, "_open_run"), MsgVal("open_run", None, (), self.srcs["msg"], run))
+        return r, self.env.emitted[n0:]
+
+    def want(self, pre, sid):
+        """the RunStart content the statement asks for, before the normalizer"""
+        return merged(pre["md"], "generator", "my_plan", pre["msg"], pre["call"], sid)
+
+    def frame(self, pre, sid):
+        now = dict(self.re.md)
+        if sid is None:
+            ok_sid = "scan_id" not in now
+        else:
+            ok_sid = "scan_id" in now and Eq(now.pop("scan_id"), sid)
+        was = {k: v for k, v in pre["md"].items() if k != "scan_id"}
+        return And(ok_sid, Eq(now, was), Eq(self.re._metadata_per_call, pre["call"]), Eq(self.srcs["msg"], pre["msg"]),
+                   self.re.md is self.srcs["md"] and self.re._metadata_per_call is self.srcs["call"])
+
+    def check_opened(self, r, emitted, pre, opened, transform=lambda d: d, uids=None):
+        """the obligations of one successfully opened run (the `opened`-th of this engine)"""
+        w = self.w
+        starts = [d for n, d in emitted if n == "start"]
+        if not (r[0] == "ok" and len(starts) == 1 and len(emitted) == 1):
+            w.fail(O_MERGE, self.info("merge"))
+            return None
+        st = starts[0]
+        sid = self.sid(opened)
+        got = {k: v for k, v in st.items() if k not in ("uid", "time")}
+        w.check(O_MERGE, Eq(got, transform(self.want(pre, sid))), self.info("merge"))
+        w.check(O_SCAN, "scan_id" in self.re.md and Eq(self.re.md["scan_id"], sid), self.info("scan_id"))
+        w.check(O_FRAME, self.frame(pre, sid), self.info("frame"))
+        uids = [r[1]] if uids is None else uids
+        w.check(O_REG, "uid" in st and st["uid"] == r[1] and self.re._run_start_uids == uids and self.runs[-1]["run"] in self.re._run_bundlers
+                and len(self.re._run_bundlers) == len(uids), self.info("registered"))
+        return st
+
+    def check_refused(self, r, emitted, pre, opened, exc_ok, bundlers=0):
+        w = self.w
+        ok = r[0] == "raise" and exc_ok(r[1]) and len(emitted) == 0 and len(self.re._run_bundlers) == bundlers and \
+            len(self.re._run_start_uids) == 0
+        sid = self.sid(opened)
+        unchanged = ("scan_id" not in self.re.md) if sid is None else ("scan_id" in self.re.md and Eq(self.re.md["scan_id"], sid))
+        w.check(O_REFUSED, And(ok, unchanged), self.info("refused"))
+        w.check(O_FRAME, self.frame(pre, sid), self.info("frame"))
+
+
+# ------------------------------------------------------------------------------------------------ tasks
+@task("_open_run.metadata", PROP, functions=[f"{RE}._open_run", f"{MR}:default_scan_id_source", f"{MR}:_default_md_validator",
+                                            f"{MR}:_default_md_normalizer", f"{MB}:RunBundler.open_run"],
+      expect=[O_MERGE, O_SCAN, O_FRAME, O_REG])
 def metadata(I):
+    """one run, default validator / normalizer / scan_id source: the key under test in every subset of the sources"""
     w = I.w
-    which = {"call": w.choose([True, False], "shared key in RE(...) md"), "msg": w.choose([True, False], "shared key in open_run md"),
-             "md": w.choose([True, False], "shared key in RE.md"), "plan_name_in_md": w.choose([False, True], "plan_name in RE.md"),
-             "plan_name_in_msg": w.choose([False, True], "plan_name in open_run md")}
-    env, re_, srcs, vals, s0 = setup(I, which)
-    r = call_async(I, I.getattr(re_, "_open_run"), MsgVal("open_run", None, (), dict(srcs["msg"]), None))
-    rp = {"replay": "metadata.precedence"}
-    starts = [d for n, d in env.emitted if n == "start"]
-    ok = r[0] == "ok" and len(starts) == 1
-    if not ok:
-        w.fail(f"{RE}._open_run#ensures[every key comes from the highest-precedence source that has it]", rp)
-        return
-    st = starts[0]
-    conds = [st.get("only_call") is srcs["call"]["only_call"], st.get("only_msg") is srcs["msg"]["only_msg"], st.get("only_md") is srcs["md"]["only_md"],
-             st.get("plan_type") == "generator"]
-    winner = next((n for n in ("call", "msg", "md") if which[n]), None)
-    conds.append(("shared" not in st) if winner is None else (st.get("shared") is vals[winner]))
-    conds.append(st.get("plan_name") == ("from_msg" if which["plan_name_in_msg"] else "my_plan"))
-    w.check(f"{RE}._open_run#ensures[every key comes from the highest-precedence source that has it]", all(conds), rp)
-    want = 1 if s0 is None else s0 + 1
-    w.check(f"{RE}._open_run#ensures[scan_id' = scan_id + 1 (1 if absent), stored in RE.md and in the RunStart]",
-            And(Eq(re_.md["scan_id"], want), Eq(st["scan_id"], want)), rp)
-    w.check(f"{RE}._open_run#ensures[run registered once, uid returned and remembered]",
-            None in re_._run_bundlers and re_._run_start_uids == [r[1]] and st["uid"] == r[1], rp)
+    key = w.choose(list(KEYS), "key under test")
+    holders = [n for n in SOURCES if w.choose([False, True], f"{key} in {WHERE[n]}")]
+    sid_present = ("md" in holders) if key == "scan_id" else w.choose([True, False], "scan_id in RE.md")
+    h = H(I, key, holders, sid_present)
+    pre = h.snapshot()
+    r, emitted = h.open_run()
+    h.check_opened(r, emitted, pre, 1)
 
 
-@task("_open_run.normalizer_validator", PROP, functions=[f"{RE}._open_run"],
-      expect=[f"{RE}._open_run#ensures[normalizer result is what the RunStart carries; it receives a copy]",
-              f"{RE}._open_run#ensures[rejecting validator: nothing emitted, no run registered, no scan_id consumed]"])
+def shown_once(seen, want):
+    return len(seen) == 1 and Eq(seen[0], want)
+
+
+def exc_value_error(text):
+    return lambda e: isinstance(e, Obj) and e.cls is BUILTIN_CLASSES["ValueError"] and e.attrs.get("args") == (text,)
+
+
+@task("_open_run.normalizer_validator", PROP, functions=[f"{RE}._open_run"], expect=[O_MERGE, O_SHOWN, O_REFUSED, O_FRAME, O_SCAN])
 def normalizer_validator(I):
+    """one run with user-supplied validators / normalizers (contracts/refs/c17.py), and the run key that is already open"""
     w = I.w
-    which = {"call": True, "msg": True, "md": True, "plan_name_in_md": False, "plan_name_in_msg": False}
-    env, re_, srcs, vals, s0 = setup(I, which)
-    case = w.choose(["normalizer", "validator rejects", "normalizer raises"], "case")
-    rp = {"replay": "metadata.precedence"}
-    if case == "normalizer":
-        seen = {}
-
-        def norm(I_, a, k):
-            seen["arg"] = a[0]
-            out = dict(a[0])
-            out["normalized"] = True
-            a[0]["mutated_by_normalizer"] = 1          # must not leak into the sources (it got a deep copy)
-            return out
-        re_.attrs["md_normalizer"] = native(norm)
-        r = call_async(I, I.getattr(re_, "_open_run"), MsgVal("open_run", None, (), dict(srcs["msg"]), None))
-        starts = [d for n, d in env.emitted if n == "start"]
-        w.check(f"{RE}._open_run#ensures[normalizer result is what the RunStart carries; it receives a copy]",
-                r[0] == "ok" and len(starts) == 1 and starts[0].get("normalized") is True and "mutated_by_normalizer" not in re_.md
-                and "mutated_by_normalizer" not in re_._metadata_per_call and "mutated_by_normalizer" not in srcs["msg"], rp)
+    case = w.choose(["validator accepts", "validator writes into its argument", "validator rejects", "normalizer returns a new dict",
+                     "normalizer transforms its argument", "normalizer raises", "run key already open"], "case")
+    key = w.choose(["shared", "scan_id"], "key under test")
+    holders = [n for n in SOURCES if w.choose([True, False], f"{key} in {WHERE[n]}")]
+    vmode = {"validator accepts": "accept", "validator writes into its argument": "scribble", "validator rejects": "reject"}.get(case, "accept")
+    nmode = {"normalizer returns a new dict": "new", "normalizer transforms its argument": "inplace", "normalizer raises": "raise"}.get(case, "default")
+    h = H(I, key, holders, ("md" in holders) if key == "scan_id" else True, nested=True, validator=vmode, normalizer=nmode)
+    if case == "run key already open":
+        other = Opaque("open-run-bundler", {"token": "bundler", "truth": True, "isinstance_default": False})
+        h.re._run_bundlers[None] = other
+        h.case["pre_open"] = [None]
+        pre = h.snapshot()
+        r, emitted = h.open_run()
+        ims = I.P.class_info("bluesky.utils", "IllegalMessageSequence")
+        h.check_refused(r, emitted, pre, 0, lambda e: isinstance(e, Obj) and e.cls.issubclass(ims), bundlers=1)
+        w.check(O_REFUSED, h.re._run_bundlers.get(None) is other and h.vseen == [], h.info("refused"))
         return
-    bad = Obj(BUILTIN_CLASSES["ValueError"], {"args": ("rejected",), "__cause__": None}, label="rejected")
-    got = {}
-
-    def validator(I_, a, k):
-        got["md"] = a[0]
-        raise PyRaise(bad)
+    pre = h.snapshot()
+    r, emitted = h.open_run()
+    shown = h.want(pre, h.sid(1))
     if case == "validator rejects":
-        re_.attrs["md_validator"] = native(validator)
+        h.check_refused(r, emitted, pre, 0, exc_value_error("rejected"))
+        w.check(O_SHOWN, And(shown_once(h.vseen, shown), h.nseen == []), h.info("shown"))
+        return
+    if case == "normalizer raises":
+        h.check_refused(r, emitted, pre, 0, exc_value_error("normalizer refuses"))
+        w.check(O_SHOWN, And(shown_once(h.vseen, shown), shown_once(h.nseen, shown)), h.info("shown"))
+        return
+
+    def transform(d):
+        if nmode == "default":
+            return d
+        out = dict(d)
+        out["normalized"] = nmode
+        if nmode == "new":
+            del out["only_md"]
+        else:
+            out["only_md"] = "normalizer:only_md"
+            out["sample"] = {"name": "normalizer:sample"}
+        return out
+    st = h.check_opened(r, emitted, pre, 1, transform)
+    if st is None:
+        return
+    w.check(O_SHOWN, And(shown_once(h.vseen, shown), nmode == "default" or shown_once(h.nseen, shown)), h.info("shown"))
+
+
+@task("_open_run.sequence", PROP, functions=[f"{RE}._open_run", f"{MR}:default_scan_id_source"], expect=[O_MERGE, O_SCAN, O_FRAME, O_REG, O_REFUSED],
+      covers=["sequence: second run opened after an opened first run", "sequence: second run opened after a refused first run"])
+def sequence(I):
+    """'every RunStart' / 'per opened run': a second run of the same call, after a first one that was ordinary, overrode the
+    scan_id for itself, had a validator that wrote into its argument, or was refused"""
+    w = I.w
+    first = w.choose(["ordinary", "scan_id in open_run md", "scan_id in RE(...) md", "validator writes into its argument", "validator rejects",
+                      "normalizer raises"], "first run")
+    sid_present = w.choose([True, False], "scan_id in RE.md")
+    vmode = {"validator writes into its argument": "scribble", "validator rejects": "reject"}.get(first, "accept")
+    nmode = "raise" if first == "normalizer raises" else "default"
+    h = H(I, "scan_id" if first == "scan_id in RE(...) md" else "shared", ["call"] if first == "scan_id in RE(...) md" else ["md", "msg"],
+          sid_present, validator=vmode, normalizer=nmode)
+    if first == "scan_id in open_run md":
+        h.srcs["msg"]["scan_id"] = value(w, "scan_id", "msg")
+    pre = h.snapshot()
+    r1, em1 = h.open_run(run="first")
+    if first in ("validator rejects", "normalizer raises"):
+        h.check_refused(r1, em1, pre, 0, exc_value_error("rejected" if first == "validator rejects" else "normalizer refuses"))
+        opened, uids = 0, []
+        # the next attempt is accepted
+        h.re.attrs["md_validator"] = I.call_value(I.get_function("verif_ref_c17:make_validator"), h.vseen, "accept")
+        h.re.attrs["md_normalizer"] = I.get_function(f"{MR}:_default_md_normalizer")
+        h.case["then"] = "accept"
     else:
-        re_.attrs["md_normalizer"] = native(validator)      # the normalizer refuses the metadata: the run is not opened either
-    had = "scan_id" in re_.md
-    r = call_async(I, I.getattr(re_, "_open_run"), MsgVal("open_run", None, (), dict(srcs["msg"]), None))
-    unchanged = Eq(re_.md["scan_id"], s0) if had else ("scan_id" not in re_.md)
-    w.check(f"{RE}._open_run#ensures[rejecting validator: nothing emitted, no run registered, no scan_id consumed]",
-            And(r[0] == "raise" and r[1] is bad and len(env.emitted) == 0 and len(re_._run_bundlers) == 0 and re_._run_start_uids == []
-                and got.get("md") is not None, unchanged), rp)
+        if h.check_opened(r1, em1, pre, 1) is None:
+            return
+        opened, uids = 1, [r1[1]]
+    msg2 = {"only_msg2": w.real("v_only_msg2"), "shared": w.real("v_shared_msg2")}
+    h.srcs["msg"] = msg2
+    pre2 = h.snapshot()
+    r2, em2 = h.open_run(msg2, run="second")
+    if r2[0] == "ok":
+        w.cover("sequence: second run opened after an opened first run" if opened else "sequence: second run opened after a refused first run")
+    h.check_opened(r2, em2, pre2, opened + 1, uids=uids + [r2[1]] if r2[0] == "ok" else None)
+
+
+# ------------------------------------------------------------------------------------------------ RE(...) keyword layer (T2)
+@task("call.metadata", PROP, functions=[f"{RE}.__call__", f"{RE}._clear_call_cache", f"{RE}._run", f"{RE}._open_run", f"{RE}._close_run"],
+      expect=[O_CALL, O_MERGE, O_SCAN], covers=["call.metadata: second call completed"])
+def call_metadata(I):
+    """two RE(plan, **md) calls on an engine built by the real __init__: the real __call__ / _run / _open_run / _close_run
+    under the asyncio model; each call's plan opens two runs"""
+    from .run_lib import Engine, Bundler
+    w = I.w
+    sid_present = w.choose([True, False], "scan_id in RE.md")
+    md = {"only_md": w.real("v_only_md"), "shared": w.real("v_shared_md")}
+    if sid_present:
+        md["scan_id"] = w.int("scan_id")
+    s0 = md.get("scan_id")
+    case = {"md": sorted(md), "calls": [], "two_calls": True}
+    eng = Engine(I, md=md)
+    # the scenario is finite and deterministic (concrete plan, no environment): no co-inductive closure - every cut point is
+    # made distinct (RE.md is not part of the canonical configuration, the two cases / the two calls would be identified)
+    eng.ghost["key"] = gk = {"scan_id in RE.md": sid_present, "cuts": 0}
+    eng.loop.on_cut = lambda what: gk.__setitem__("cuts", gk["cuts"] + 1)
+    w.stubs["collections.ChainMap"] = live_chainmap
+    reference_module(I.P, "verif_ref_c17", REF)
+    started = []          # (metadata handed to the RunBundler = RunStart content by the bundler contract, per-call layer then)
+    w.stubs[(MR, "RunBundler")] = native(lambda I_, a, k: (started.append((plain(I_, a[0]), dict(eng.re._metadata_per_call))),
+                                                           Bundler(eng, a[0], a[1]).facade)[1])
+    calls = [{"only_call": w.real("v_only_call"), "shared": w.real("v_shared_call"), "first_call_only": w.real("v_first_call_only")},
+             {"only_call": w.real("v_only_call2")}]
+    info = lambda clause: {"replay": "metadata.scenario", "clause": clause, "case": case, "ref_file": REF_FILE}
+    pre_md = dict(md)
+    n = 0
+    for ci, kw in enumerate(calls):
+        runs = [("a", {"only_msg": w.real(f"v_only_msg_{ci}a"), "shared": w.real(f"v_shared_msg_{ci}a")}), ("b", {"only_msg": w.real(f"v_only_msg_{ci}b")})]
+        case["calls"].append({"call": sorted(kw), "runs": [{"run": rk, "md": sorted(m)} for rk, m in runs]})
+        plan = I.call_value(I.get_function("verif_ref_c17:my_plan"), runs)
+        pname = I.getattr(plan, "__name__")          # the plan identity: the generator's own name (the engine qualifies it with its module)
+        before = len(started)
+        r = eng.call("__call__", plan, **kw)
+        mine = started[before:]
+        if r[0] != "ok" or len(mine) != 2 or eng.state != "idle":
+            w.fail(O_CALL, info("per_call"))
+            return
+        w.check(O_CALL, And(*[Eq(layer, kw) for _, layer in mine]), info("per_call"))
+        for (got, _), (rk, m) in zip(mine, runs):
+            n += 1
+            sid = n if s0 is None else s0 + n
+            w.check(O_MERGE, Eq(got, merged(pre_md, "generator", pname, m, kw, sid)), info("merge"))
+        w.check(O_SCAN, "scan_id" in eng.re.md and Eq(eng.re.md["scan_id"], n if s0 is None else s0 + n), info("scan_id"))
+        if ci == 1:
+            w.cover("call.metadata: second call completed")
+
+
+# ------------------------------------------------------------------------------------------------ must-fail twins
+@task("_open_run.twin", PROP, twin="twin:open_run metadata beats RE(...) metadata")
+def twin_precedence(I):
+    w = I.w
+    h = H(I, "shared", ["call", "msg", "md"], True)
+    r, emitted = h.open_run()
+    st = [d for n, d in emitted if n == "start"][0]
+    w.check("twin:open_run metadata beats RE(...) metadata", Eq(st["shared"], h.srcs["msg"]["shared"]))
+
+
+@task("_open_run.twin_scan_id", PROP, twin="twin:an overriding scan_id moves the persistent counter")
+def twin_scan_id(I):
+    w = I.w
+    h = H(I, "scan_id", ["call", "md"], True)
+    r, emitted = h.open_run()
+    w.check("twin:an overriding scan_id moves the persistent counter", Eq(h.re.md["scan_id"], h.srcs["call"]["scan_id"] + 1))
+
+
+@task("_open_run.twin_validator", PROP, twin="twin:what the validator writes reaches the RunStart")
+def twin_validator(I):
+    w = I.w
+    h = H(I, "shared", ["md"], True, validator="scribble")
+    r, emitted = h.open_run()
+    st = [d for n, d in emitted if n == "start"][0]
+    w.check("twin:what the validator writes reaches the RunStart", st.get("checked") is True)
